@@ -2,7 +2,7 @@
 From Coq Require Import ZArith Bool List Lia.
 From MomoCommon Require Import GenPrelude.
 From C18 Require Import Gen_Vertices Gen_Ceil Model Layout Fill Vertices Bits Inv.
-From C18 Require Gen_List.
+From C18 Require Gen_List Gen_Bits.
 Import ListNotations.
 Local Open Scope Z_scope.
 
@@ -179,6 +179,20 @@ Section WithL.
       rewrite (contains_refines L), E. reflexivity.
     - destruct (contains L st code); reflexivity.
     - destruct (contains L st code); reflexivity.
+  Qed.
+
+  (* IsMutable through the GENERATED GetBit on the model's mMutableOffsets bytes: true at a column's offset iff the column was
+     added as mutable, and at no other offset *)
+  Theorem reachable_generated_GetBit ops : Forall (fun op => group_ok (snd op)) ops ->
+    (forall r, In r (columns (reach_f ops)) -> Gen_Bits.GetBit (mutBytes (reach_f ops)) (r_off r) = r_mut r) /\
+    (forall o, 0 <= o -> Gen_Bits.GetBit (mutBytes (reach_f ops)) o = true ->
+       exists r, In r (columns (reach_f ops)) /\ r_off r = o /\ r_mut r = true).
+  Proof.
+    intros Hops. destruct (reachable_is_mutable ops Hops) as (H1 & H2). split.
+    - intros r Hr. rewrite GetBit_refines; [apply (H1 r Hr)|].
+      pose proof (run_f_inv L keep HL ops Hops) as I.
+      destruct (chain_in _ _ _ _ (inv_chain L keep _ I) Hr) as (Q & _). pose proof (slot_range keep). unfold slot in *. lia.
+    - intros o Ho H. rewrite GetBit_refines in H by auto. apply (H2 o Ho H).
   Qed.
 
   (* in every reachable state mCodeParam is at most the source's maxCodeParam, so every vertex index computed from it --
